@@ -32,6 +32,7 @@ import (
 	"errors"
 	"log"
 
+	"github.com/Tnze/go-mc/chat"
 	"github.com/Tnze/go-mc/data/packetid"
 	"github.com/Tnze/go-mc/net"
 	pk "github.com/Tnze/go-mc/net/packet"
@@ -82,7 +83,7 @@ func (s *Server) AcceptConn(conn *net.Conn) {
 			if errors.As(err, &loginErr) {
 				_ = conn.WritePacket(pk.Marshal(
 					packetid.ClientboundLoginLoginDisconnect,
-					loginErr.reason,
+					chat.JsonMessage(loginErr.reason),
 				))
 			}
 			if s.Logger != nil {
